@@ -4,6 +4,7 @@ import Bmc.Proofs.GenLoops.BuildAndSendCommand
 import Bmc.Proofs.EndToEnd.SessionC09
 import Bmc.Proofs.EndToEnd.SessionlessC09
 import Bmc.Proofs.EndToEnd.HistoryC09
+import Bmc.Proofs.EndToEnd.SessionlessHistory
 #print axioms Bmc.Proofs.C09.command_seqs
 #print axioms Bmc.Proofs.C09.serialise_failure_consumes_nothing
 #print axioms Bmc.Proofs.C09.history_seqs
@@ -26,3 +27,6 @@ import Bmc.Proofs.EndToEnd.HistoryC09
 #print axioms Bmc.Proofs.EndToEnd.generatedHistory_eq
 #print axioms Bmc.Proofs.EndToEnd.generated_history_sequence_numbers
 #print axioms Bmc.Proofs.EndToEnd.generated_history_no_reuse
+#print axioms Bmc.Proofs.EndToEnd.generated_sessionless_history
+#print axioms Bmc.Proofs.EndToEnd.generated_sessionless_history_ignores_connection
+#print axioms Bmc.Proofs.EndToEnd.generated_sessionless_history_null
